@@ -290,6 +290,12 @@ def chan_value(ch, t):
     return step_value(ch["tlist"], ch["coeff"], t)
 
 
+def inside(a, b):
+    """a time strictly inside the slice [a, b) (the midpoint); `a` itself when there is no float between the two"""
+    m = 0.5 * (a + b)
+    return m if a < m < b else a
+
+
 def herm(rng_np, d):
     a = rng_np.normal(size=(d, d)) + 1j * rng_np.normal(size=(d, d))
     return (a + a.conj().T) / 2
@@ -422,6 +428,60 @@ def _rounding_spec(rng, nsub=None):
             "rounding": {"unit": unit, "ks": ks, "forms": forms}}
 
 
+NEAR_SCALES = [1.0, 20.0, 1e3, 1e6]
+
+
+def make_near_spec(rng, S=None, d=None):
+    """two points of DIFFERENT channels that are distinct for the merged grid (more than tol = 1e-10 apart) but close:
+    gap d in {1.5e-10, 5e-10, 1e-9, 3e-11*t, 9e-11*t, 1e-8*t} at a time of the order S in {1, 20, 1e3, 1e6}; every channel's own
+    steps are of the order S (far above tol), the coefficients (of the order 1/S, so that the evolution stays a rotation by
+    O(1)) differ before and after the close pair.  A tolerance that grows with t would merge the pair."""
+    S = S or rng.choice(NEAR_SCALES)
+    nsub = rng.randint(1, 2)
+    dims = [rng.choice([2, 3]) for _ in range(nsub)]
+
+    def base():
+        n = rng.randint(3, 5)
+        tl = [0.0]
+        for _ in range(n - 1):
+            tl.append(tl[-1] + rng.uniform(0.25, 0.9))
+        return tl
+    A = base()
+    i = rng.randrange(1, len(A) - 1) if len(A) > 2 else 1
+    pa = A[i] * S
+    cands = [x for x in (d,) if x] or [1.5e-10, 5e-10, 1e-9, 3e-11 * pa, 9e-11 * pa, 1e-8 * pa]
+    cands = [x for x in cands if (pa + x) - pa > 1.2e-10] or [3e-10 * max(1.0, pa)]
+    gap = rng.choice(cands)
+    later = rng.random() < 0.7                       # the other channel's point is the later one of the pair
+    pb = pa + gap if later else pa - gap
+    before = sorted(rng.uniform(0.15, 0.85) * A[i] for _ in range(rng.randint(0, 1)))
+    after = sorted(A[i] + rng.uniform(0.2, 1.5) * (k + 1) for k in range(rng.randint(1, 2)))
+    B = [0.0] + [x * S for x in before] + [pb] + [x * S for x in after]
+    grids = [[x * S for x in A], B]
+    for _ in range(rng.randint(0, 1)):
+        grids.append([x * S for x in base()])
+    order = list(range(len(grids)))
+    rng.shuffle(order)
+    chans = []
+    for k in order:
+        tl = grids[k]
+        cs, last = [], 0.0
+        for _ in range(len(tl) - 1):
+            c = last
+            while abs(c - last) < 0.3:
+                c = rng.choice([-1, 1]) * rng.uniform(0.3, 2.0)
+            cs.append(c / S)
+            last = c
+        chans.append({"targets": rng.sample(range(nsub), rng.randint(1, min(2, nsub))), "tlist": tl, "coeff": cs})
+    return {"dims": dims, "seed": rng.randrange(2**31), "chans": chans, "drift": None, "dm": rng.random() < 0.3,
+            "near": {"scale": S, "t": pa, "gap": (pa + gap) - pa if later else pa - (pa - gap)}}
+
+
+def near_tags(spec):
+    n = spec.get("near") or {}
+    return ["near-coincident distinct points", f"near: t~{n.get('scale'):g}", "near: gap/tol=" + ("<2" if n.get("gap", 0) < 2e-10 else "<10" if n.get("gap", 0) < 1e-9 else "<=100" if n.get("gap", 0) <= 1e-8 else ">100")]
+
+
 def rounding_tags(spec):
     """which coincidences of the spec are not bitwise"""
     ends = [ch["tlist"][-1] for ch in spec["chans"] if not is_const(ch)]
@@ -527,7 +587,7 @@ def reference_U(grid, spec, drift_full, mats):
         H = drift_full.copy()
         for ch, M in zip(spec["chans"], mats):
             # value inside the slice (the grid contains every breakpoint, up to rounding: evaluated at the midpoint)
-            H = H + chan_value(ch, 0.5 * (a + b)) * M
+            H = H + chan_value(ch, inside(a, b)) * M
         U = sla.expm(-1j * H * (b - a)) @ U
     return U
 
@@ -794,7 +854,7 @@ def coeffs_mismatch(spec, T, C, exact=False):
         return f"get_full_coeffs has shape {np.shape(C)} for {len(spec['chans'])} channels and {len(T)} merged points"
     for m, ch in enumerate(spec["chans"]):
         for k in range(len(T)):
-            t = 0.5 * (T[k] + T[k + 1]) if k + 1 < len(T) else T[k] + 1e-9
+            t = inside(T[k], T[k + 1]) if k + 1 < len(T) else T[k] + max(1e-9, 4 * abs(T[k]) * 2.0 ** -52)
             sv = chan_value(ch, t)
             if abs(C[m][k] - sv) > (0 if exact else 1e-12):
                 where = (f"on the merged slice [{T[k]!r}, {T[k + 1]!r})" if k + 1 < len(T) else f"at the end point {T[k]!r}")
@@ -813,6 +873,8 @@ def solver_operator_mismatch(p, spec, T, drift_full, mats):
     T = [float(t) for t in T]
     for a, b in zip(T[:-1], T[1:]):
         t = 0.5 * (a + b)
+        if not a < t < b:
+            continue                      # no float strictly inside the slice
         H = drift_full + sum(chan_value(ch, t) * M for ch, M in zip(spec["chans"], mats))
         err = float(np.abs(qu(t).full() - H).max())
         if err > 1e-9:
@@ -1085,7 +1147,7 @@ def probe_state(p, state, probes, fresh=True):
             if pr == "coeffs":
                 T, C = p.get_full_tlist(), p.get_full_coeffs()
                 Tl = [float(t) for t in T]
-                if any(min(abs(g - t) for t in Tl) > 1e-9 for g in grid) or any(min(abs(g - t) for g in grid) > 0 for t in Tl):
+                if any(min(abs(g - t) for t in Tl) > 1.0000001e-10 for g in grid) or any(min(abs(g - t) for g in grid) > 0 for t in Tl):
                     return f"get_full_tlist {Tl!r} does not represent the breakpoints {grid!r} of the current pulses"
                 d = coeffs_mismatch(state, T, C)
                 if d:
@@ -1108,9 +1170,9 @@ def probe_state(p, state, probes, fresh=True):
                 qu, _c = p.get_qobjevo(noisy=noisy)
                 if noisy or not state["drifts"]:       # noisy=False leaves the drift out (not judged): only filled / called
                     for a, b in zip(grid[:-1], grid[1:]):
-                        if b - a < 1e-9:
-                            continue
                         t = 0.5 * (a + b)
+                        if b - a <= 1.05e-10 or not a < t < b:
+                            continue
                         H = drift_full + sum(chan_value(ch, t) * M for ch, M in zip(state["chans"], mats))
                         err = float(np.abs(qu(t).full() - H).max())
                         if err > 1e-9:
@@ -1311,6 +1373,16 @@ CONST_WITNESS = {"kind": "evolution", "spec": {
     "dims": [2, 2], "seed": 9, "drift": {"targets": [0, 1]}, "dm": False,
     "chans": [{"targets": [0], "tlist": [0.0, 0.35, 0.8, 1.3], "coeff": [0.9, -1.3, 0.6]},
               {"targets": [1], "tlist": [0.0, 0.25, 0.5], "coeff": True}]}}
+# two channels with the points 20.0 and 20.0 + 1e-9 (ten times the tolerance of the merged grid apart), coefficients of the
+# order 1/20 that change at both points
+NEAR_WITNESS = {"kind": "evolution", "spec": {
+    "dims": [2, 2], "seed": 71, "drift": None, "dm": False,
+    "chans": [{"targets": [0], "tlist": [0.0, 20.0, 40.0, 60.0], "coeff": [0.05, -0.03, 0.04]},
+              {"targets": [1], "tlist": [0.0, 20.0 + 1e-9, 30.0, 45.0], "coeff": [0.02, 0.06, -0.07]}]}}
+NEAR_WITNESS_2 = {"kind": "evolution", "spec": {
+    "dims": [2], "seed": 72, "drift": None, "dm": True,
+    "chans": [{"targets": [0], "tlist": [0.0, 1.0 - 1.5e-10, 1.75, 2.5], "coeff": [0.9, -1.1, 0.6]},
+              {"targets": [0], "tlist": [0.0, 1.0, 2.0], "coeff": [-0.7, 1.3]}]}}
 CONST_WITNESS_2 = {"kind": "evolution", "spec": {
     "dims": [2], "seed": 10, "drift": {"targets": [0]}, "dm": True,
     "chans": [{"targets": [0], "tlist": [0.4, 0.9], "coeff": False},
@@ -1416,7 +1488,8 @@ class C14(PropertyCheck):
             "durations, typed-in decimals, k*0.1, other association order) with non-zero last coefficients; history stream: one "
             "Processor object (any documented constructor form) evolved, edited through the public API (pulse.targets/.qobj/.coeff/"
             ".tlist, add_pulse, remove_pulse, add_drift) and evolved again, 2-4 steps; non-trivial = at least "
-            "two channels with different grids; malformed inputs and save/reload are counted with their own tags")
+            "two channels with different grids; near stream: two distinct points of different channels 1.5e-10 ... 1e-8*t apart at "
+            "t ~ 1, 20, 1e3, 1e6; malformed inputs and save/reload are counted with their own tags")
 
     def regenerate(self, ctx):
         FLAGS.update(detect_flags())
@@ -1855,6 +1928,11 @@ class C14(PropertyCheck):
         for spec in [dict(ROUNDING_WITNESS["spec"]), dict(ROUNDING_WITNESS_2["spec"])] + [make_rounding_spec(rng) for _ in range(28 * k)]:
             stream.append((spec, ["rounding"] + rounding_tags(spec)))
             nround += 1
+        # distinct points of different channels closer than a tolerance that grows with t would allow
+        nnear = 0
+        for spec in [dict(NEAR_WITNESS["spec"]), dict(NEAR_WITNESS_2["spec"])] + [make_near_spec(rng, S=NEAR_SCALES[i % 4]) for i in range(24 * k)]:
+            stream.append((spec, near_tags(spec) if spec.get("near") else ["near-coincident distinct points"]))
+            nnear += 1
         for spec, extra in stream:
             tags = ["numeric", f"subsystems={len(spec['dims'])}", f"channels={len(spec['chans'])}",
                     "state=" + ("dm" if spec["dm"] else "ket"), "drift=" + str(bool(spec["drift"]))] + extra
@@ -1884,7 +1962,9 @@ class C14(PropertyCheck):
                          f"with a constant channel of every shape (own tlist ending before / after / with the others, starting late, "
                          f"no tlist) x both values, {nround} with channel grids whose breakpoints and end points coincide as real "
                          "numbers but not bitwise (cumsum of decimal durations, typed-in decimals, k*0.1, other association order, "
-                         "scaled linspace; non-zero last coefficients)")
+                         f"scaled linspace; non-zero last coefficients), {nnear} with two DISTINCT points of different channels a gap "
+                         "1.5e-10 ... 1e-8*t apart at times of the order 1, 20, 1e3, 1e6 (own steps far above tol, coefficients that "
+                         "change at both points)")
         # cubic coefficients (numeric, partial): model = degree of the interpolant per sample count; the oracle's reference
         ncub = 0
         for n in range(0, 9):
@@ -1971,9 +2051,19 @@ class C14(PropertyCheck):
                 C = p.get_full_coeffs()
                 # the merged grid: every breakpoint of every channel is represented (up to rounding), nothing else
                 Tl = [float(t) for t in T]
-                if any(min(abs(g - t) for t in Tl) > 1e-9 for g in grid) or any(min(abs(g - t) for g in grid) > 0 for t in Tl) \
+                if any(min(abs(g - t) for t in Tl) > 1.0000001e-10 for g in grid) or any(min(abs(g - t) for g in grid) > 0 for t in Tl) \
                         or any(b - a <= 0 for a, b in zip(Tl[:-1], Tl[1:])):
-                    return True, f"get_full_tlist {Tl!r} does not represent the breakpoints {grid!r} of the channels"
+                    try:
+                        Ux = np.eye(Uref.shape[0], dtype=complex)
+                        for u in p.run_analytically():
+                            Ux = u.full() @ Ux
+                        more = f"; run_analytically differs from the time-ordered product by {np.abs(Ux - Uref).max():.3e}"
+                    except Exception as e:
+                        more = f"; run_analytically raises {type(e).__name__}"
+                    missing = [g for g in grid if min(abs(g - t) for t in Tl) > 1.0000001e-10]
+                    what = (f"{missing!r} missing (more than 1e-10 from every merged point)" if missing else
+                            f"{[t for t in Tl if min(abs(g - t) for g in grid) > 0]!r} are not points of any channel")
+                    return True, f"get_full_tlist {Tl!r} does not represent the breakpoints of the channels: {what}" + more
                 d = coeffs_mismatch(spec, T, C)
                 if d:
                     return True, d
@@ -2108,7 +2198,7 @@ class C14(PropertyCheck):
         f, d = self.oracle_replay(ctx, RUNSTATE_WITNESS)
         if f:
             yield RUNSTATE_WITNESS, d
-        for w in (ROUNDING_WITNESS, ROUNDING_WITNESS_2, CONST_WITNESS, CONST_WITNESS_2, RETARGET_WITNESS):
+        for w in (ROUNDING_WITNESS, ROUNDING_WITNESS_2, CONST_WITNESS, CONST_WITNESS_2, RETARGET_WITNESS, NEAR_WITNESS, NEAR_WITNESS_2):
             f, d = self.oracle_replay(ctx, w)
             if f:
                 yield w, d
@@ -2118,6 +2208,11 @@ class C14(PropertyCheck):
             # members of the class are evaluated and matched by finding_matches (KNOWN-FINDING), not skipped
             tiny = [TINY_STEP_WITNESS] + [{"kind": "evolution", "spec": make_tiny_step_spec(rng)} for _ in range(3)]
         for w in tiny + history_family()[::3] + [make_history(rng) for _ in range(8)] + constructor_witnesses():
+            f, d = self.oracle_replay(ctx, w)
+            if f:
+                yield w, d
+        for i in range(8):
+            w = {"kind": "evolution", "spec": make_near_spec(rng, S=NEAR_SCALES[i % 4])}
             f, d = self.oracle_replay(ctx, w)
             if f:
                 yield w, d
@@ -2156,6 +2251,10 @@ class C14(PropertyCheck):
                         if shape == "ends-last" and not flags()["hold"]:
                             continue
                     first.append({"kind": kind, "spec": add_const_channel(rng, base, shape=shape, value=val)})
+        first += [NEAR_WITNESS, NEAR_WITNESS_2]
+        for S in NEAR_SCALES:                     # every scale x every gap (absolute and proportional to t)
+            for dd in (1.5e-10, 5e-10, 1e-9, 3e-11 * S, 9e-11 * S, 1e-8 * S):
+                first.append({"kind": "evolution", "spec": make_near_spec(rng, S=S, d=dd)})
         first += [RETARGET_WITNESS] + constructor_witnesses() + history_family()
         for w in first:
             f, d = self.oracle_replay(ctx, w)
@@ -2164,7 +2263,8 @@ class C14(PropertyCheck):
         i = 0
         while time.time() - t0 < budget_s:
             i += 1
-            spec = make_rounding_spec(rng) if i % 3 == 0 else make_spec(rng, last_zero=not flags()["zl"], const=(i % 3 == 1))
+            spec = (make_rounding_spec(rng) if i % 6 == 0 else make_near_spec(rng) if i % 6 == 3
+                    else make_spec(rng, last_zero=not flags()["zl"], const=(i % 3 == 1)))
             w = {"kind": "evolution", "spec": spec}
             f, d = self.oracle_replay(ctx, w)
             if f:
